@@ -283,13 +283,16 @@ class C17Engine(Engine):
                         replies.append(wri.decode())
                     alive = s.alive()
                     escaped = repr(s.escaped) if s.escaped else None
-                    s.stop()
-                    await settle()
                 else:
                     alive, escaped = True, None
-                    ex.cancel()
+                # everything is recorded before either side is torn down (cancelling a waiting gather_and_close changes the pool)
                 snaps.append(snapshot(pool, groups))
-                return {"replies": replies, "snaps": snaps, "calls": list(hmod.calls), "cbs": list(hmod.cbs), "alive": alive, "escaped": escaped}
+                result = {"replies": list(replies), "snaps": snaps, "calls": list(hmod.calls), "cbs": list(hmod.cbs), "alive": alive, "escaped": escaped}
+                if via_session:
+                    s.stop()
+                else:
+                    ex.cancel()
+                return result
             return run_in_fresh_loop(main)
 
         viol: List[dict] = []
